@@ -38,7 +38,7 @@ def nontrivial(r):
 def run(ctx):
     fam = dict(FAM, tier=ctx["tier"])
     return common.conductor_run(
-        ctx, "C10", fam, common.project_full, monitors.c10, features, nontrivial, 120, 1500,
+        ctx, "C10", fam, common.project_full, monitors.c10, features, nontrivial, 240, 1500,
         rule="generated definitions (joins, retries, with-items windows, loops); (a) random history with control "
              "requests compared with the Coq model after every API call; (b) simulation with canceling/canceled "
              "requested before sampled/every event; non-trivial = a cancel was accepted while an action was in flight")
